@@ -44,6 +44,7 @@ theorem guarded_setter_rejects (r : Resp) (op : Op) (v : PyVal) (s : Str)
   | clear ks => cases hop
   | status n => cases hop
   | init st h m => cases hop
+  | initMap st ks m => cases hop
   | error st o => cases hop
   | cookie n o => cases hop
 
@@ -69,6 +70,7 @@ theorem wrong_type_rejected (r : Resp) (op : Op) (v : PyVal)
   | clear ks => cases hop
   | status n => cases hop
   | init st h m => cases hop
+  | initMap st ks m => cases hop
   | error st o => cases hop
   | cookie n o => cases hop
 
@@ -94,6 +96,40 @@ theorem guarded_init_rejects (r : Resp) (st : Option Int) (hdrs more : List (Str
     (step r (.init st hdrs more)).2.isSome = true ∧ StoreClean (step r (.init st hdrs more)).1.store := by
   simp only [step]
   exact ⟨initResp_refused _ st hdrs more h, (initResp_inv _ st hdrs more).1⟩
+
+/-- a key that is not exactly two characters long stops the unpacking loop with `ValueError` -/
+theorem unpackKeys_raises (keys : List Str) (h : ∃ k ∈ keys, k.length ≠ 2) :
+    (unpackKeys keys).2 = some .valueError := by
+  fun_induction unpackKeys keys with
+  | case1 => obtain ⟨k, hk, _⟩ := h; cases hk
+  | case2 a b r ps e hr ih =>
+    obtain ⟨k, hk, hl⟩ := h
+    simp only [List.mem_cons] at hk
+    rcases hk with rfl | hk
+    · simp at hl
+    · have := ih ⟨k, hk, hl⟩
+      rw [hr] at this
+      exact this
+  | case3 => rfl
+
+/-- **guarded_setter_rejects**, constructor handed a MAPPING THAT IS NOT A `dict` (a `HeaderDict`, the `.headers` of
+another response or of an upload, a mapping proxy): such a container is no proof that its values went through a
+guarded setter (`HeaderDict(m)` and `update` store them as they are), and the constructor does not take them over:
+whatever the mapping holds, nothing of its VALUES reaches the store (the operation does not even mention them), the
+object left behind is clean, and unless every key happens to be two characters long the call raises. -/
+theorem guarded_init_mapping (r : Resp) (st : Option Int) (keys : List Str) (more : List (Str × PyVal)) :
+    StoreClean (step r (.initMap st keys more)).1.store ∧
+    ((∃ k ∈ keys, k.length ≠ 2) → (step r (.initMap st keys more)).2.isSome = true) := by
+  simp only [step]
+  refine ⟨(initRespMap_inv _ st keys more).1, fun h => ?_⟩
+  have hk := unpackKeys_raises keys h
+  unfold initRespMap
+  rcases hu : unpackKeys keys with ⟨ps, e⟩
+  rw [hu] at hk
+  simp only at hk
+  subst hk
+  simp only
+  split <;> rfl
 
 /-- **store_clean**: after any sequence of operations (each possibly raising) on a fresh
 response every stored value is a CR/LF/NUL-free string, and the store is a proper dict. -/
@@ -354,6 +390,11 @@ example : StoreClean [("X".toList, Entry.many ["é€".toList, "a\tb".toList])] 
 /-- a bytes value: hypotheses of `wrong_type_rejected` -/
 example : (Op.append "X".toList (.bytes [120])).direct = some (.bytes [120]) ∧ pyStr (.bytes [120]) = none := by
   decide
+
+/-- a mapping with an ordinary header name raises; one whose key is two characters long is taken apart -/
+example : ∃ k ∈ ["X-Trace".toList], k.length ≠ 2 := ⟨_, List.mem_singleton.mpr rfl, by decide⟩
+example : (initRespMap 200 none ["X-Trace".toList] []).2 = some .valueError := by decide
+example : unpackKeys ["TE".toList, "X-Trace".toList] = ([("T".toList, .str "E".toList)], some .valueError) := by decide
 
 /-- a refused option for `guarded_error_options_reject` / `guarded_init_rejects` -/
 example : Refused (.str "a\nb".toList) := refused_of_ctl (s := "a\nb".toList) rfl (by decide)
